@@ -136,7 +136,9 @@ func (it *omapIter) next() tuple {
 		pick := 0
 		switch it.i.mapOrder {
 		case mapOrderSymbolic:
-			if it.left > 1 {
+			// stated bound: maps of up to 4 entries are iterated in every
+			// order; larger ones in insertion order
+			if it.left > 1 && len(it.keys) <= 4 {
 				pick = it.i.path.ForkSchedule(it.left)
 			}
 		case mapOrderReverse:
